@@ -171,13 +171,14 @@ func (c *FenceConn) BeginTx(ctx context.Context, opts driver.TxOptions) (driver.
 		// the business of this delivery must not run, and the caller of BeginTx runs it on the transaction it is
 		// handed: it gets none. What the fence wrote stays (the suspension record of a rollback before its try).
 		tm.SetFenceTxBeginedFlag(ctx, false)
-		tm.SetFenceNothingToDo(ctx, true)
 		if cerr := fenceTx.Commit(); cerr != nil {
 			if rerr := tx.Rollback(); rerr != nil {
 				log.Error(rerr)
 			}
 			return nil, cerr
 		}
+		// (only now: the record that says so is committed)
+		tm.SetFenceNothingToDo(ctx, true)
 		if rerr := tx.Rollback(); rerr != nil {
 			log.Error(rerr)
 		}
